@@ -129,7 +129,7 @@ PROPS["C06"] = dict(
           "position or a corpus position), grammar-aware mutations of them, semantic near-misses that break exactly one "
           "acceptance condition, e.p.-field text variants, uniformly random bytes / alphabet strings of length 0-120, "
           "fixed edge inputs, random builder sequences; distinct_nontrivial = distinct inputs (byte strings / op lists)"),
-    floor=dict(any={"evaluations": 200000, "accepted": 5000, "rejected": 100000, "builder-accepted": 100,
+    floor=dict(any={"evaluations": 200000, "accepted": 5000, "rejected": 100000, "builder-accepted": 100, "fromstr-agreement-checks": 100000,
                     "near-miss:right-without-h1-rook:unplayable-rejected": 20,
                     "near-miss:opponent-in-check-by-knight:unplayable-rejected": 100,
                     "near-miss:ep-target-occupied:unplayable-rejected": 100,
@@ -177,7 +177,7 @@ PROPS["C11"] = dict(
           "themes with short walks, terminal and clock>=99 positions with budgets far beyond 65536 polls; sub-strata "
           "with a non-empty ThreeFold history and positional evaluation; distinct_nontrivial = distinct positions "
           "searched (each with its whole k sweep)"),
-    floor=dict(any={"evaluations": 20000, "k-sweep-exhaustive-to-T2": 20, "terminal-position": 2,
+    floor=dict(any={"evaluations": 20000, "k-sweep-exhaustive-to-T2": 20, "terminal-position": 2, "traced-searches": 500, "traced-log-bytes": 1000000,
                     "long-run-on-trivial-passes": 5, "non-empty-threefold-history": 10,
                     "expiry-phase:pass0:captures:in-recursion": 50, "expiry-phase:pass0:quiets:root-level": 50,
                     "expiry-phase:pass1:prev-best:in-recursion": 50, "expiry-phase:pass2:quiets:in-recursion": 50,
@@ -559,7 +559,7 @@ PROPS["C07"] = dict(
           "violation), Miri on the release profile (UB), and a chk-vs-ship digest comparison per shard; thorough adds Miri "
           "dev, ASan, valgrind; slider-table and book index ranges are exercised by C08 / C17 in the same flavours; "
           "distinct_nontrivial = distinct (input, sequence seed) pairs"),
-    floor=dict(any={"sequences-completed": 3000, "api:search": 3000, "api:movegen-ops": 5000, "positions:extremal": 50,
+    floor=dict(any={"sequences-completed": 3000, "api:search": 3000, "api:movegen-ops": 5000, "positions:extremal": 50, "raw-board-histories": 3000, "printing-cases": 16,
                     "positions:random-accepted-not-chess": 500, "positions:fen-mutation": 3000,
                     "max:move-list-entries-estimated": 18, "sentinel-searches": 8, "clock-extreme-cases": 8,
                     "long-repetition-cases": 2}),
